@@ -120,6 +120,9 @@ type Plan struct {
 	Strategy   int     `json:"strategy"` // 0 random walk, 1..3 PCT depth
 	Legal      bool    `json:"legal"`    // environment delivers only legal transport transitions
 	Ops        []Op    `json:"ops"`
+	// Suffix: concurrent plans only - a short serial operation list executed with
+	// the full model after the burst has quiesced and healed (fresh keys only).
+	Suffix []Op `json:"suffix,omitempty"`
 }
 
 //go:norace
@@ -134,6 +137,11 @@ func (p *Plan) Clone() *Plan {
 		c.Ops[i].Keys = append([]int(nil), o.Keys...)
 	}
 	c.Cfg.Extra = append([]ExtraEntry(nil), p.Cfg.Extra...)
+	c.Suffix = make([]Op, len(p.Suffix))
+	for i, o := range p.Suffix {
+		c.Suffix[i] = o
+		c.Suffix[i].Keys = append([]int(nil), o.Keys...)
+	}
 	return &c
 }
 
@@ -482,6 +490,33 @@ func Generate(r *rand.Rand, profile string, concurrent bool, av Avoid) *Plan {
 	for i := range p.Ops {
 		p.Ops[i].ID = i + 1
 	}
+	if concurrent {
+		n := 6 + r.IntN(14)
+		for i := 0; i < n; i++ {
+			o := Op{ID: 100000 + i}
+			switch x := r.IntN(100); {
+			case x < 45:
+				o.K = OpPick
+				o.B = []int{MPlain, MBind, MBound, MBound, MUnbind, MNoAff}[r.IntN(6)]
+				o.Keys = []int{10 + r.IntN(2)} // keys the burst never used
+				if r.IntN(6) == 0 {
+					o.C = 1 + r.IntN(2)
+				}
+			case x < 75:
+				o.K = OpDone
+				o.A = r.IntN(4)
+				o.B = []int{OutOK, OutOK, OutOK, OutAppErr, OutCancelled}[r.IntN(5)]
+				o.Keys = []int{10 + r.IntN(2)}
+			default:
+				o.K = OpConn
+				o.A = r.IntN(6)
+				if r.IntN(3) == 0 {
+					o.B = ConnFail
+				}
+			}
+			p.Suffix = append(p.Suffix, o)
+		}
+	}
 	return p
 }
 
@@ -496,7 +531,9 @@ func Simplify(p *Plan) []*Plan {
 			out = append(out, c)
 		}
 	}
-	add(func(c *Plan) bool { ch := c.Concurrent; c.Concurrent = false; return ch })
+	add(func(c *Plan) bool { ch := c.Concurrent; c.Concurrent = false; c.Suffix = nil; return ch })
+	add(func(c *Plan) bool { ch := len(c.Suffix) > 0; c.Suffix = nil; return ch })
+	add(func(c *Plan) bool { ch := len(c.Suffix) > 1; c.Suffix = c.Suffix[:len(c.Suffix)/2]; return ch })
 	add(func(c *Plan) bool { ch := len(c.Cfg.Extra) > 0; c.Cfg.Extra = nil; return ch })
 	add(func(c *Plan) bool { ch := c.Cfg.Locator != 0; c.Cfg.Locator = 0; return ch })
 	add(func(c *Plan) bool { ch := c.Cfg.RR; c.Cfg.RR = false; return ch })
